@@ -144,6 +144,14 @@ Covers(zk, k) == zk[2] = k[3] /\ AtOrAbove(zk[1], k[1])
 ResetMatchingIn(Q, Z, k) ==
   [q |-> [Q EXCEPT ![k] = None],
    z |-> [x \in ZKeys |-> IF Covers(x, k) THEN None ELSE Z[x]]]
+(* a useful answer that reaches the cache's response writer: ResetMatching for the
+   client's own audience; the answers of this model carry no ECS SCOPE, i.e. they are global
+   and stored under the shared key, whose write also resets the shared audience's question
+   failure (Store.setFromResponseWithKey) *)
+Shared(k) == <<k[1], k[2], k[3], k[4], 0>>
+UsefulIn(Q, Z, k) ==
+  LET S == ResetMatchingIn(Q, Z, k) IN
+  [q |-> [x \in QKeys |-> IF x = Shared(k) THEN None ELSE S.q[x]], z |-> S.z]
 ResetMatchingCount(Q, Z, k) ==
   (IF Q[k] # None THEN 1 ELSE 0) + Cardinality({x \in ZKeys : Covers(x, k) /\ Z[x] # None})
 
@@ -268,7 +276,7 @@ ValidOutcome(k, o, z) ==
 (* what the downstream outcome does to the shared state *)
 ReqEffectSet(Q, Z, k, o, z) ==
   IF ~Enabled THEN {[q |-> Q, z |-> Z]}
-  ELSE IF o = "useful" THEN {ResetMatchingIn(Q, Z, k)}
+  ELSE IF o = "useful" THEN {UsefulIn(Q, Z, k)}
   ELSE LET afterZone == IF z # -1 /\ AdmitZ(o) THEN RecZSet(Q, Z, <<z, k[3]>>, ZCause(o))
                         ELSE {[q |-> Q, z |-> Z]}
        IN UNION {IF AdmitQ(o) THEN RecQSet(S.q, S.z, k, QCause(o)) ELSE {S} : S \in afterZone}
@@ -307,11 +315,16 @@ Begin(r, k) ==
 Finish(r, o, z) ==
   /\ pc[r] = "down" /\ ValidOutcome(rq[r], o, z)
   /\ \E S \in ReqEffectSet(fq, fz, rq[r], o, z) : fq' = S.q /\ fz' = S.z
-  /\ pc' = [x \in Reqs |-> IF x = r THEN "idle"
-                           ELSE IF ld[r] /\ pc[x] = "wait" /\ gk[x] = gk[r] THEN "woke"
-                           ELSE pc[x]]
+  /\ LET released == {x \in Reqs \ {r} : ld[r] /\ pc[x] = "wait" /\ gk[x] = gk[r]}
+         \* followers asking the leader's own question find its answer in the ordinary
+         \* answer cache when they re-check (plain dedup): they are done
+         answered == {x \in released : o = "useful" /\ Shared(rq[x]) = Shared(rq[r])}
+     IN /\ pc' = [x \in Reqs |-> IF x = r \/ x \in answered THEN "idle"
+                                 ELSE IF x \in released THEN "woke" ELSE pc[x]]
+        /\ rq' = [x \in Reqs |-> IF x = r \/ x \in answered THEN DefaultQ ELSE rq[x]]
+        /\ gk' = [x \in Reqs |-> IF x = r \/ x \in answered THEN <<"-">> ELSE gk[x]]
+        /\ rg' = [x \in Reqs |-> IF x = r \/ x \in answered THEN 0 ELSE rg[x]]
   /\ ld' = [ld EXCEPT ![r] = FALSE]
-  /\ rq' = Idle(rq, r, DefaultQ) /\ gk' = Idle(gk, r, <<"-">>) /\ rg' = Idle(rg, r, 0)
   /\ last' = MkLast("Finish", A(r, o, z), rq[r], Miss, 0, TRUE, ResOf(o))
 
 (* a follower released by its leader: re-check, then regroup once, then shed *)
